@@ -3,7 +3,7 @@ CONSTANTS Menu = "C07"
  Layouts = {"siblings", "nested", "root"}
  AllPlants = TRUE
  Lite = FALSE
- Flavours <- Flav_plain
+ Flavours <- Flav_alias
 INIT HInit
 NEXT HNext
 INVARIANT EmitCase
